@@ -276,6 +276,18 @@ def main(argv):
         if r.status == "undecided":
             undecided.append(f"crate {c}: {r.reason}")
             continue
+        # reachability canaries: a function named reach_canary_* asserts that a contract under test can NOT be met (e.g. `assert(r is Err)` after a call);
+        # it must FAIL - if it verifies, some stub / constant / precondition is contradictory and every success below would be vacuous
+        canaries = [f for f in r.functions if f["function"].split("::")[-1].startswith("reach_canary_")]
+        proper = set(fl["function"] for fl in r.failures if (fl["function"] or "").startswith("reach_canary_") and "postcondition" in fl["message"])
+        for f in canaries:
+            short = f["function"].split("::")[-1]
+            if f["ok"]:
+                undecided.append(f"crate {c}: reachability canary {f['function']} verified: a contract or stub is contradictory (vacuous)")
+            elif short not in proper and r.status != "undecided":
+                undecided.append(f"crate {c}: reachability canary {short} failed for another reason than its postcondition `never succeeds`: reachability of the success path is not shown")
+        r.failures = [fl for fl in r.failures if not (fl["function"] or "").startswith("reach_canary_")]
+        r.functions = [f for f in r.functions if not f["function"].split("::")[-1].startswith("reach_canary_")]
         mine = [f for f in r.functions if pid in f["tags"] and f["mode"] in ("exec", "proof")]
         if not mine and not r.failures:
             undecided.append(f"crate {c}: no obligation tagged {pid} was generated (vacuous run)")
